@@ -50,18 +50,25 @@ package snps
 //@   ensures [c12.done] implies(!failed(w), len(sent(cErr)) == 0 && len(sent(cWriteDone)) == 1)
 //@   ensures [c12.order] implies(!failed(w), len(written(w)) == 1 + len(recv(cSNPs)) && written(w)[0] == "query,SNPs\n" && forall(k, 0, len(recv(cSNPs)), written(w)[1+k] == snpRow(recv(cSNPs)[posOf(k)].queryname, join(recv(cSNPs)[posOf(k)].snps, "|"))))
 
-//@ # C19 for the aggregate SNP writer.
+//@ # C13/C19 aggregate SNP writer: counter = number of records; the list of keys is a duplicate-free enumeration of the
+//@ # counting map, sorted (the comparator parses positions: only "permutation" is assumed of that sort); a row is written
+//@ # exactly for the keys whose count/counter reaches the threshold, as <key>,<frequency to 9 decimals>.
 //@ func aggregateWriteOutput
 //@   modifies w, cErr, cWriteDone
 //@   loop 1:
-//@     invariant !failed(w) && len(sent(cWriteDone)) == 0
+//@     invariant !failed(w) && len(sent(cWriteDone)) == 0 && len(written(w)) == 1 && counter == float64(range_i)
 //@   loop 2:
-//@     invariant !failed(w) && len(sent(cWriteDone)) == 0
+//@     invariant !failed(w) && len(sent(cWriteDone)) == 0 && len(written(w)) == 1 && counter == float64(range_i1 + 1)
 //@   loop 3:
-//@     invariant !failed(w) && len(sent(cWriteDone)) == 0
+//@     invariant !failed(w) && len(sent(cWriteDone)) == 0 && len(written(w)) == 1 && freshslice(order)
+//@     invariant len(order) == range_i && forall(j, 0, range_i, order[j] == mapkey(j) && in(propMap, order[j]))
 //@   loop 4:
 //@     invariant !failed(w) && len(sent(cWriteDone)) == 0
+//@     invariant len(written(w)) == 1 + count(k, 0, range_i, !(propMap[order[k]] / counter < threshold))
+//@   after call:SliceStable#1: assert [keys.permuted] forall(j, 0, len(order), 0 <= sortperm(j) && sortperm(j) < len(order) && in(propMap, order[j]))
+//@   after call:Write#2: assert [row] !(propMap[snp] / counter < threshold) && written(w)[len(written(w))-1] == snp + "," + fmtfloat(propMap[snp] / counter) + "\n"
 //@   ensures [c19.reported] implies(failed(w), len(sent(cErr)) >= 1 && len(sent(cWriteDone)) == 0)
+//@   before send#3: assert [c13.rows] !failed(w) && len(written(w)) == 1 + count(k, 0, len(order), !(propMap[order[k]] / counter < threshold))
 
 //@ # C18: validation prefix of the entry point (everything before the first goroutine): a --reference with more than one
 //@ # record is refused; past the check exactly one reference record exists (so refs[0] cannot panic).
